@@ -72,6 +72,16 @@ def run_case(case):
         users = [u for u in range(i) if nodes[u]["kind"] == "memento" and nodes[u]["mod"] == nodes[i]["mod"]]
         if users and not any(c["t"] == i and c["form"] == "bare" for u in users for c in nodes[u]["calls"]):
             nodes[rng.choice(users)]["calls"].append({"t": i, "form": "bare"})
+    # a memento function that reaches a plain helper is the default value of a parameter of another memento function of
+    # its module (the default is evaluated when that function is defined: wherever the helper's definition stands)
+    cands = [(u, t) for u in range(len(nodes)) for t in range(u + 1, len(nodes))
+             if nodes[u]["kind"] == "memento" and nodes[t]["kind"] == "memento" and nodes[u]["mod"] == nodes[t]["mod"]
+             and nodes[t]["version"] is None
+             and any(nodes[j]["kind"] in ("plain", "wrapped") and nodes[j]["mod"] == nodes[t]["mod"] for j in progs.callees(prog, t, include_hidden=False))]
+    if cands and case["idx"] % 2 == 0:
+        u, t = rng.choice(cands)
+        nodes[u]["cbdefault"] = t
+        out["obs"]["programs_with_a_function_as_default_value"] += 1
     out["sets"]["features"] |= progs.features(prog)
     fns = [[nd["mod"], nd["name"]] for nd in prog["nodes"] if nd["kind"] == "memento"]
 
